@@ -506,6 +506,31 @@ impl<'a> Analysis<'a> {
                         ));
                     }
                 }
+                // the connection ended because the PEER's application dropped its Multiplexor while the transport was healthy: everything
+                // it had written before (completed writes = frames queued before the drop) is still transmitted before the Close, so
+                // end-of-stream here may only come after all of it ("only after every byte the peer wrote before that point")
+                if let (Some(eof), None, None) = (me.eof_at, me.dropped_at, self.case.raw.as_ref()) {
+                    let peer_side = 1 - my_side;
+                    let first_end = self.conn_end_at;
+                    let drop_at = self.run.events.iter().position(|e| matches!(&e.ev, Ev::App(AppEv::MuxDropped { side }) if *side == peer_side));
+                    let faults = self.case.events.iter().any(|e| matches!(e.what, What::CutSink { .. } | What::CutSource { .. } | What::Blackhole { .. } | What::Inject { msg: RawMsg::Close, .. } | What::Inject { msg: RawMsg::Bytes(_), .. }))
+                        || self.run.events.iter().any(|e| matches!(&e.ev, Ev::Fault(_) | Ev::Recv { msg: WMsg::Invalid(_), .. }));
+                    if let (Some(d), false) = (drop_at, faults) {
+                        // the reader's own endpoint must not have reset the flow, and the drop must be the first sign of the end
+                        let own_reset = s.flow_id.is_some_and(|id| self.run.events.iter().any(|e| matches!(&e.ev, Ev::Sent { side, msg: WMsg::Frame(RFrame::Reset { id: r }), .. } if *side == my_side && *r == id)));
+                        let reused = s.flow_id.is_some_and(|id| self.streams.iter().enumerate().any(|(j, t)| j != i && t.connects.iter().any(|c| c.1 == id)));
+                        let w = peer.written_before(d);
+                        if first_end == Some(d) && d < eof && !own_reset && !reused && s.open_ok_at.is_some() && s.accepted_at.is_some() && me.total_read() < w && me.read_errs.is_empty() {
+                            return Err((
+                                "c05-eof-before-data-at-peer-drop".into(),
+                                format!(
+                                    "stream {i} end {end}: the peer application completed writes of {w} bytes and then dropped its Multiplexor on a healthy transport; this end read end-of-stream after {} bytes",
+                                    me.total_read()
+                                ),
+                            ));
+                        }
+                    }
+                }
                 // writes after own shutdown must fail
                 if let Some(sd) = me.shutdown_at {
                     let before = me.written_before(sd);
